@@ -177,6 +177,9 @@ pub fn run(ctx: &Ctx) -> i32 {
     ctx.run_replays(|c, case| replay_any(c, case, &ctx.known));
     ctx.enumerate("repo-queries", corpus_sources(), |c| check(c, &ctx.known));
     ctx.tape_search("generated", ctx.n(40_000, 1_500_000), 500, gen_case, |c| check(c, &ctx.known));
+    if !ctx.quick() {
+        ctx.fuzz_campaign("tape_c16", ctx.fuzz_secs(180), 1200);
+    }
     ctx.finish(
         "generated programs with every construct of the generator enabled (nested group/window pipelines, joins of sub-pipelines and let-tables, several references to one let-table, append, remove/intersect, relation shapes the SQL back-end mishandles) plus the repository's integration queries; the resolver's RQ (as JSON) is checked for: each column id defined exactly once; every id used in a transform / sort / partition / window / take range / expression defined earlier and visible (after Select and Aggregate only their columns); table ids unique and declared before use; table-reference columns exist in the source; pipelines start with From and end with a Select of the declared arity; is_aggregation exactly on aggregated computes. non-trivial = >= 2 tables, >= 1 join or append, >= 8 column ids; distinct = source text",
         &["'visible' is read strictly for expressions and partitions (after Select only the selected ids, after Aggregate only partition and compute ids); sort keys only have to be defined earlier in the same pipeline, because the resolver deliberately carries the sort in effect past a Select that drops its columns (calibrated on the repository's own queries)"],
